@@ -3,6 +3,7 @@ package main
 import (
 	"fmt"
 	"go/ast"
+	"go/constant"
 	"go/token"
 	"go/types"
 	"sort"
@@ -30,24 +31,43 @@ func init() {
 // ---------------------------------------------------------------------------
 // C02.index-agrees-with-hasindex
 
-// kindClause finds, in the first tagless switch of fd whose cases test val.Type().IsXType(), the clause per kind.
-func kindClauses(info *types.Info, fd *ast.FuncDecl) map[string]*ast.CaseClause {
-	out := map[string]*ast.CaseClause{}
-	inspectNoLit(fd.Body, func(n ast.Node) bool {
-		sw, ok := n.(*ast.SwitchStmt)
-		if !ok || sw.Tag != nil {
-			return true
-		}
-		for _, cl := range sw.Body.List {
-			cc := cl.(*ast.CaseClause)
-			for _, e := range cc.List {
-				if call, ok := ast.Unparen(e).(*ast.CallExpr); ok {
-					if k := kindPredicate(funcKey(callee(info, call))); k != "" {
-						if _, dup := out[k]; !dup {
-							out[k] = cc
-						}
-					}
+// kindBranch is the body executed for receivers of one kind.
+type kindBranch struct {
+	Body []ast.Stmt
+	List []ast.Expr // the conditions selecting this branch
+	At   token.Pos
+}
+
+func (k *kindBranch) Pos() token.Pos { return k.At }
+
+// kindClauses finds the branch per receiver kind: a clause of a tagless switch whose
+// case tests val.Type().IsXType(), or the body of an `if val.Type().IsXType() {…}`.
+func kindClauses(info *types.Info, fd *ast.FuncDecl) map[string]*kindBranch {
+	out := map[string]*kindBranch{}
+	add := func(e ast.Expr, list []ast.Expr, body []ast.Stmt, at token.Pos) {
+		if call, ok := ast.Unparen(e).(*ast.CallExpr); ok {
+			if k := kindPredicate(funcKey(callee(info, call))); k != "" {
+				if _, dup := out[k]; !dup {
+					out[k] = &kindBranch{Body: body, List: list, At: at}
 				}
+			}
+		}
+	}
+	inspectNoLit(fd.Body, func(n ast.Node) bool {
+		switch x := n.(type) {
+		case *ast.SwitchStmt:
+			if x.Tag != nil {
+				return true
+			}
+			for _, cl := range x.Body.List {
+				cc := cl.(*ast.CaseClause)
+				for _, e := range cc.List {
+					add(e, cc.List, cc.Body, cc.Pos())
+				}
+			}
+		case *ast.IfStmt:
+			if x.Init == nil {
+				add(x.Cond, []ast.Expr{x.Cond}, x.Body.List, x.Pos())
 			}
 		}
 		return true
@@ -55,10 +75,12 @@ func kindClauses(info *types.Info, fd *ast.FuncDecl) map[string]*ast.CaseClause 
 	return out
 }
 
-// rejections lists the canonical conditions of the top-level `if COND { <exit> }` statements
-// of a clause whose body is the given kind of exit ("panic" or "return False").
-func rejections(info *types.Info, cc *ast.CaseClause, exit string, recv types.Object) []string {
-	var out []string
+// rejections lists, as a sorted set of canonical atomic conditions, the disjuncts of the
+// top-level `if COND { <exit> }` statements of a branch whose body is the given kind of
+// exit ("panic" or "return False"). A condition `!ok` whose flag comes from a helper
+// `x, ok := H(key)` is replaced by the conditions under which H returns false. opaque
+// is set when a rejection could not be rendered (the comparison is then partial).
+func rejections(c *Ctx, info *types.Info, cc *kindBranch, exit string, recv types.Object) (out []string, opaque bool) {
 	// locals computed from the receiver (existence / bounds facts, not key validation)
 	recvDep := map[types.Object]bool{recv: true}
 	for changed := true; changed; {
@@ -87,6 +109,7 @@ func rejections(info *types.Info, cc *ast.CaseClause, exit string, recv types.Ob
 			})
 		}
 	}
+	seen := map[string]bool{}
 	for _, st := range cc.Body {
 		ifs, ok := st.(*ast.IfStmt)
 		if !ok || ifs.Else != nil || len(ifs.Body.List) != 1 {
@@ -104,10 +127,130 @@ func rejections(info *types.Info, cc *ast.CaseClause, exit string, recv types.Ob
 			}
 		}
 		if matched && !mentionsAny(info, ifs.Cond, recvDep) {
-			out = append(out, canonExpr(info, ifs.Cond))
+			var scope ast.Node = &ast.BlockStmt{List: cc.Body}
+			for _, a := range rejectionAtoms(c, info, scope, ifs.Cond, 0, &opaque) {
+				if !seen[a] {
+					seen[a] = true
+					out = append(out, a)
+				}
+			}
 		}
 	}
 	sort.Strings(out)
+	return out, opaque
+}
+
+// rejectionAtoms splits a rejection condition on || and expands helper flags.
+func rejectionAtoms(c *Ctx, info *types.Info, scope ast.Node, cond ast.Expr, depth int, opaque *bool) []string {
+	cond = ast.Unparen(cond)
+	if be, ok := cond.(*ast.BinaryExpr); ok && be.Op == token.LOR {
+		return append(rejectionAtoms(c, info, scope, be.X, depth, opaque), rejectionAtoms(c, info, scope, be.Y, depth, opaque)...)
+	}
+	// !flag / flag == false with flag the last result of a helper call
+	var flag types.Object
+	if ue, ok := cond.(*ast.UnaryExpr); ok && ue.Op == token.NOT {
+		flag = objOf(info, ue.X)
+	} else if be, ok := cond.(*ast.BinaryExpr); ok && be.Op == token.EQL && isBoolConst(info, be.Y, false) {
+		flag = objOf(info, be.X)
+	}
+	if v, ok := flag.(*types.Var); ok && !v.IsField() && depth < 3 {
+		if atoms, ok := helperFailureAtoms(c, info, scope, v, depth, opaque); ok {
+			return atoms
+		}
+		*opaque = true
+		return nil
+	}
+	return []string{canonExpr(info, cond)}
+}
+
+func isBoolConst(info *types.Info, e ast.Expr, want bool) bool {
+	tv, ok := info.Types[ast.Unparen(e)]
+	return ok && tv.Value != nil && tv.Value.Kind() == constant.Bool && constant.BoolVal(tv.Value) == want
+}
+
+// helperFailureAtoms: flag is defined once in scope by `…, flag := H(args)` where H is a
+// package function of the shape  { stmts; if C1 { return …, false } …; return …, true }.
+// The result is the atoms of C1 ∨ C2 ∨ …
+func helperFailureAtoms(c *Ctx, info *types.Info, scope ast.Node, flag *types.Var, depth int, opaque *bool) ([]string, bool) {
+	var def *ast.CallExpr
+	n := 0
+	ast.Inspect(scope, func(x ast.Node) bool {
+		as, ok := x.(*ast.AssignStmt)
+		if !ok {
+			return true
+		}
+		for i, l := range as.Lhs {
+			if objOf(info, l) == types.Object(flag) {
+				n++
+				if len(as.Rhs) == 1 && i == len(as.Lhs)-1 && len(as.Lhs) >= 2 {
+					def, _ = ast.Unparen(as.Rhs[0]).(*ast.CallExpr)
+				}
+			}
+		}
+		return true
+	})
+	if n != 1 || def == nil {
+		return nil, false
+	}
+	h := callee(info, def)
+	if h == nil || h.Pkg() == nil || h.Type().(*types.Signature).Recv() != nil {
+		return nil, false
+	}
+	short := strings.TrimPrefix(h.Pkg().Path(), modPath+"/")
+	if c.Pkgs[short] == nil {
+		return nil, false
+	}
+	hd := c.Decl(short, h.Name())
+	if hd == nil || hd.Body == nil || len(hd.Body.List) == 0 {
+		return nil, false
+	}
+	hinfo := c.Info(short)
+	last, ok := hd.Body.List[len(hd.Body.List)-1].(*ast.ReturnStmt)
+	if !ok || len(last.Results) < 2 || !isBoolConst(hinfo, last.Results[len(last.Results)-1], true) {
+		return nil, false
+	}
+	var atoms []string
+	for _, st := range hd.Body.List[:len(hd.Body.List)-1] {
+		hasRet := false
+		ast.Inspect(st, func(x ast.Node) bool {
+			if _, ok := x.(*ast.ReturnStmt); ok {
+				hasRet = true
+			}
+			if _, ok := x.(*ast.FuncLit); ok {
+				return false
+			}
+			return true
+		})
+		if !hasRet {
+			continue
+		}
+		ifs, ok := st.(*ast.IfStmt)
+		if !ok || ifs.Else != nil || ifs.Init != nil || len(ifs.Body.List) != 1 {
+			return nil, false
+		}
+		ret, ok := ifs.Body.List[0].(*ast.ReturnStmt)
+		if !ok || len(ret.Results) < 2 || !isBoolConst(hinfo, ret.Results[len(ret.Results)-1], false) {
+			return nil, false
+		}
+		atoms = append(atoms, rejectionAtoms(c, hinfo, hd.Body, ifs.Cond, depth+1, opaque)...)
+	}
+	if len(atoms) == 0 {
+		return nil, false
+	}
+	return atoms, true
+}
+
+func setMinus(a, b []string) []string {
+	in := map[string]bool{}
+	for _, x := range b {
+		in[x] = true
+	}
+	var out []string
+	for _, x := range a {
+		if !in[x] {
+			out = append(out, x)
+		}
+	}
 	return out
 }
 
@@ -180,7 +323,23 @@ func runIndexAgrees(rr *RuleRun) {
 			rr.Violation(key, idx.Pos(), fmt.Sprintf("Index and HasIndex do not both have a branch for %s receivers (Index: %v, HasIndex: %v)", k, a != nil, b != nil))
 			continue
 		}
-		ra, rb := rejections(info, a, "panic", recvObj(info, idx)), rejections(info, b, "false", recvObj(info, has))
+		ra, oa := rejections(rr.Ctx, info, a, "panic", recvObj(info, idx))
+		rb, ob := rejections(rr.Ctx, info, b, "false", recvObj(info, has))
+		if oa || ob {
+			// one side decides through a helper this rule cannot read: what can be read must still be rejected by the other side
+			var miss []string
+			if oa && !ob {
+				miss = setMinus(ra, rb)
+			} else if ob && !oa {
+				miss = setMinus(rb, ra)
+			}
+			if len(miss) > 0 {
+				rr.Violation(key, a.Pos(), fmt.Sprintf("for %s receivers Index panics on {%s} but HasIndex answers False on {%s}: an index lookup must succeed exactly when HasIndex is true", k, strings.Join(ra, " ; "), strings.Join(rb, " ; ")))
+				continue
+			}
+			rr.Assumed(key, a.Pos(), "a rejection is decided by a helper whose conditions could not be rendered; the readable conditions agree")
+			continue
+		}
 		if strings.Join(ra, " ;; ") != strings.Join(rb, " ;; ") {
 			rr.Violation(key, a.Pos(), fmt.Sprintf("for %s receivers Index panics on {%s} but HasIndex answers False on {%s}: an index lookup must succeed exactly when HasIndex is true", k, strings.Join(ra, " ; "), strings.Join(rb, " ; ")))
 			continue
@@ -189,9 +348,12 @@ func runIndexAgrees(rr *RuleRun) {
 	}
 	// list and tuple branches of Index validate the key identically
 	if l, t := ic["List"], ic["Tuple"]; l != nil && t != nil {
-		rl, rt := rejections(info, l, "panic", recvObj(info, idx)), rejections(info, t, "panic", recvObj(info, idx))
+		rl, ol := rejections(rr.Ctx, info, l, "panic", recvObj(info, idx))
+		rt, ot := rejections(rr.Ctx, info, t, "panic", recvObj(info, idx))
 		key := "cty.Value.Index[List~Tuple]"
-		if strings.Join(rl, ";") != strings.Join(rt, ";") {
+		if ol || ot {
+			rr.Assumed(key, l.Pos(), "a rejection is decided by a helper whose conditions could not be rendered")
+		} else if strings.Join(rl, ";") != strings.Join(rt, ";") {
 			rr.Violation(key, l.Pos(), fmt.Sprintf("the list branch rejects {%s}, the tuple branch {%s}", strings.Join(rl, " ; "), strings.Join(rt, " ; ")))
 		} else {
 			rr.OK(key, l.Pos(), "list and tuple branches reject the same keys")
